@@ -154,7 +154,7 @@ package corebgp
 //@   ensures [update_is_fresh_copy] messageType == 2 ==> err == nil && isType(m, updateMessage) && eqBytes(asType(m, updateMessage), b) && (len(b) > 0 ==> fresh(asType(m, updateMessage).arr))
 //@   ensures [keepalive] messageType == 4 ==> err == nil && isType(m, *keepAliveMessage) && asType(m, *keepAliveMessage) != nil
 //@   ensures [notification] messageType == 3 ==> (err == nil) == (len(b) >= 2) && (err == nil ==> isType(m, *Notification) && asType(m, *Notification) != nil && asType(m, *Notification).Code == b[0] && asType(m, *Notification).Subcode == b[1] && len(asType(m, *Notification).Data) == len(b) - 2 && (forall i :: 0 <= i && i < len(b) - 2 ==> asType(m, *Notification).Data[i] == b[2+i])) && (err != nil ==> !hasType(err, *notificationError))
-//@   ensures [open] messageType == 1 ==> (err == nil ==> isType(m, *openMessage) && asType(m, *openMessage) != nil && fresh(asType(m, *openMessage)) && len(b) >= 10 && asType(m, *openMessage).version == b[0] && asType(m, *openMessage).asn == be16(b, 1) && asType(m, *openMessage).holdTime == be16(b, 3) && asType(m, *openMessage).bgpID == be32(b, 5)) && (err != nil ==> isType(err, *notificationError) && asType(err, *notificationError) != nil && asType(err, *notificationError).out && notifOf(err) != nil)
+//@   ensures [open] messageType == 1 ==> (err == nil ==> isType(m, *openMessage) && asType(m, *openMessage) != nil && fresh(asType(m, *openMessage)) && len(b) >= 10 && asType(m, *openMessage).version == b[0] && asType(m, *openMessage).asn == be16(b, 1) && asType(m, *openMessage).holdTime == be16(b, 3) && asType(m, *openMessage).bgpID == be32(b, 5) && (forall k :: 0 <= k && k < len(asType(m, *openMessage).optionalParams) ==> isType(asType(m, *openMessage).optionalParams[k], *capabilityOptionalParam) && asType(asType(m, *openMessage).optionalParams[k], *capabilityOptionalParam) != nil)) && (err != nil ==> isType(err, *notificationError) && asType(err, *notificationError) != nil && asType(err, *notificationError).out && notifOf(err) != nil)
 
 // ---- OPEN validation (C02) ----
 
